@@ -527,6 +527,35 @@ def project(e):
 _ALT_BUSY = set()
 
 
+def _outcomes(r):
+    """the outcomes (Ok / Err / Some / None / Ok(None) / Ok(Some)) a returned expression can
+    have, or None when that cannot be told"""
+    if not isinstance(r, tuple) or not r:
+        return None
+    if r[0] == "agg" and r[1] == "adt" and str(r[2]).endswith("result::Result"):
+        if r[3] == "Err":
+            return {"Err"}
+        inner = r[4][0] if r[4] else None
+        if isinstance(inner, tuple) and inner and inner[0] == "agg" and inner[1] == "adt" and \
+                str(inner[2]).endswith("option::Option"):
+            return {"Ok(None)"} if inner[3] == "None" else {"Ok(Some)"}
+        return {"Ok"}
+    if r[0] == "agg" and r[1] == "adt" and str(r[2]).endswith("option::Option"):
+        return {"None"} if r[3] == "None" else {"Some"}
+    if r[0] in ("call", "callat"):
+        nm = r[1] if r[0] == "call" else r[2]
+        args = r[2] if r[0] == "call" else r[3]
+        if nm == "from_residual":
+            return {"Err", "None"}
+        if nm == "map" and len(args) == 2 and "Some" in fmt(args[1]) and "closure" not in fmt(args[1]):
+            return {"Ok(Some)", "Err"}          # res.map(Some)
+        if nm in ("then_some", "then"):
+            return {"Some", "None"}
+        if nm in ("ok_or", "ok_or_else"):
+            return {"Ok", "Err"}
+    return None
+
+
 _INT_TYS = ("u8", "u16", "u32", "u64", "u128", "usize", "i8", "i16", "i32", "i64", "i128", "isize")
 _CMP = {"Lt": lambda a, b: a < b, "Le": lambda a, b: a <= b, "Gt": lambda a, b: a > b,
         "Ge": lambda a, b: a >= b, "Eq": lambda a, b: a == b, "Ne": lambda a, b: a != b}
@@ -552,6 +581,8 @@ def call_alternatives(prog, e, val, want="bool"):
     if want == "ok" and "Result<" not in out_ty and "Option<" not in out_ty:
         return None
     if want == "cmp" and out_ty not in _INT_TYS:
+        return None
+    if want == "outcome" and "Result<" not in out_ty and "Option<" not in out_ty:
         return None
     if want == "variant":
         base_ty = out_ty.split("<", 1)[0]
@@ -611,6 +642,8 @@ def call_alternatives(prog, e, val, want="bool"):
                         a0 = (r[2] if r[0] == "call" else r[3])[0]
                         alts.append(fs | {(_subst(a0, mapping), True)})
                         return
+                    if r[0] in ("call", "callat") and (r[1] if r[0] == "call" else r[2]) == "from_residual":
+                        return          # `?` passing an Err / None on: not a success path
                     if r[0] in ("call", "callat"):
                         inner = call_alternatives(prog, _subst(r, mapping), True, "ok")
                         if inner is None:
@@ -620,6 +653,17 @@ def call_alternatives(prog, e, val, want="bool"):
                             alts.append(fs | a_)
                         return
                     count[0] = 10 ** 6
+                    return
+                if want == "outcome":
+                    # val = the outcome asked for: "Ok", "Err", "Some", "None", "Ok(None)",
+                    # "Ok(Some)"; a path is kept when its return value may be that outcome, and
+                    # a return value whose outcome cannot be told gives up
+                    poss = _outcomes(r)
+                    if poss is None:
+                        count[0] = 10 ** 6
+                        return
+                    if val in poss or (val == "Ok" and ("Ok(None)" in poss or "Ok(Some)" in poss)):
+                        alts.append(fs)
                     return
                 if want == "variant":
                     # val = the discriminant found (int) or ('not', (v1, ..)): only paths that
